@@ -44,7 +44,7 @@ impl<R: AsyncRead + Unpin + Send + Sync> AsyncReadPacket for R {
     async fn read_varlong(&mut self) -> Result<VarLong, Error> {
         let mut buf = [0];
         let mut ans = 0;
-        for i in 0..9 {
+        for i in 0..10 {
             self.read_exact(&mut buf).await?;
             ans |= (i64::from(buf[0] & 0b0111_1111)) << (7 * i);
             if buf[0] & 0b1000_0000 == 0 {
